@@ -1,8 +1,10 @@
 import Sozu.Router.Lemmas
 /-
 C04 — routing depends only on the configured frontends, by documented
-precedence. Property theorems `C04_*` (model as the code is: `_partial` with the
-explicit hypothesis + `_counterexample` by `decide` for each excluded point),
+precedence. Property theorems `C04_*` on the model of the code as it is after the fixes
+b632e1a (PathRule::eq Equals arm) and 3989b45 (rank-based selection):
+`_partial` = explicit hypothesis + `_counterexample` by `decide` for the excluded
+point (the three open findings F28-F30); `_regression_*` = former witnesses,
 and non-vacuity examples. Helper lemmas: `Sozu/Trie/Lemmas.lean`,
 `Sozu/Router/Lemmas.lean`.
 -/
@@ -13,72 +15,6 @@ open Sozu Sozu.Trie
 
 /-! ### trie refinement -/
 
-/-- a proper (regex-free) pattern key: dotted literal labels, TLD first, then
-    the leftmost label, which may be `*` -/
-abbrev PKey := List Bytes × Bytes
-
-inductive TOp (V : Type) where
-  | ins (k : PKey) (key : Bytes) (v : V)
-  | rem (k : PKey)
-
-def tstep {V : Type} (t : Node V) : TOp V → Node V
-  | .ins k key v => (insertRec t (keySteps k.1 k.2) key v).2
-  | .rem k => (removeRec t (keySteps k.1 k.2)).2
-
-/-- the abstract map: insert keeps an existing binding (`InsertResult::Existing`) -/
-def mstep {V : Type} (m : KMap PKey (Bytes × V)) : TOp V → KMap PKey (Bytes × V)
-  | .ins k key v => if (KMap.get? m k).isSome then m else KMap.set m k (key, v)
-  | .rem k => KMap.erase m k
-
-/-- abstract lookup: the exact key, else the `*` key of the same parent -/
-def mlookup {V : Type} (m : KMap PKey (Bytes × V)) (q : PKey) : Option (Bytes × V) :=
-  (KMap.get? m q).orElse (fun _ => KMap.get? m (q.1, [STAR]))
-
-/-- simulation relation between a trie and the abstract map -/
-def TRel {V : Type} (t : Node V) (m : KMap PKey (Bytes × V)) : Prop :=
-  WF t ∧ ∀ k : PKey, get t (keySteps k.1 k.2) = KMap.get? m k
-
-theorem trel_root {V : Type} : TRel (Node.root : Node V) [] := by
-  refine ⟨wf_root, ?_⟩
-  intro k
-  obtain ⟨ds, l⟩ := k
-  cases ds <;> simp [keySteps_nil, keySteps_cons, get_leafKey', get_cons, Node.root, Node.wc, Node.children]
-
-theorem pkey_ne {k k' : PKey} (e : k' ≠ k) : (k'.1, k'.2) ≠ (k.1, k.2) := by
-  intro h; apply e; exact Prod.ext (by simpa using congrArg Prod.fst h) (by simpa using congrArg Prod.snd h)
-
-theorem trel_step {V : Type} (t : Node V) (m : KMap PKey (Bytes × V)) (op : TOp V) (h : TRel t m) :
-    TRel (tstep t op) (mstep m op) := by
-  obtain ⟨hwf, hget⟩ := h
-  cases op with
-  | ins k key v =>
-    have sp := insertRec_spec key v k.1 k.2 _ hwf
-    refine ⟨sp.wf, ?_⟩
-    intro k'
-    simp only [tstep, mstep]
-    by_cases e : k' = k
-    · subst e
-      rw [sp.self, hget]
-      cases hk : KMap.get? m k' <;> simp [hk]
-    · rw [sp.other k'.1 k'.2 (pkey_ne e), hget]
-      split
-      · rfl
-      · rw [KMap.get?_set_ne _ _ e]
-  | rem k =>
-    have sp := removeRec_spec k.1 k.2 _ hwf
-    refine ⟨sp.wf, ?_⟩
-    intro k'
-    simp only [tstep, mstep]
-    by_cases e : k' = k
-    · subst e; rw [sp.self]; simp
-    · rw [sp.other k'.1 k'.2 (pkey_ne e), hget, KMap.get?_erase_ne _ e]
-
-theorem trel_run {V : Type} (ops : List (TOp V)) :
-    ∀ (t : Node V) (m : KMap PKey (Bytes × V)), TRel t m → TRel (ops.foldl tstep t) (ops.foldl mstep m) := by
-  induction ops with
-  | nil => intro t m h; exact h
-  | cons op ops ih => intro t m h; exact ih _ _ (trel_step t m op h)
-
 /-- C04 (trie): after **any** history of inserts and removes of regex-free keys,
     the trie's lookup of a request hostname is the abstract map's lookup with
     exact-over-wildcard precedence (single-label wildcard). -/
@@ -87,166 +23,256 @@ theorem C04_trie_refines_map_partial {V : Type} (re : Bytes → Bytes → Bool) 
   obtain ⟨hwf, hget⟩ := trel_run ops _ _ trel_root
   rw [lookup_eq re q.1 q.2 _ hwf, mlookup, hget q, hget (q.1, [STAR])]
 
+/-! ### precedence and order independence (tree leaf) -/
 
-/-! ### order independence (tree leaf) -/
+/-- C04 (precedence, tree leaf) — unconditional since the rank-based selection:
+    for every rule list, request and regex oracle, the loop returns nothing
+    only if no rule matches, and otherwise the route of a rule whose documented
+    rank (`Spec.rank`: EQUALS > REGEX > PREFIX, longer prefix, method-specific)
+    no other rule of the leaf exceeds. -/
+theorem C04_lookup_in_spec (o : Oracle) (host path method : Bytes) (l : List Rule3) :
+    (selectLeaf o l path method = none ∧ ∀ c ∈ l, Spec.rank o (feOf host c) path method = none) ∨
+    (∃ r ∈ l, ∃ k, selectLeaf o l path method = some r.2.2 ∧ Spec.rank o (feOf host r) path method = some k ∧
+        ∀ c ∈ l, ∀ kc, Spec.rank o (feOf host c) path method = some kc → Spec.rankLt k kc = false) := by
+  simp only [feOf, ← ruleRank_eq_spec, ← rankGt_eq_specLt]
+  exact select_good o path method l
 
-/-- C04 (order independence, tree part): the selection loop gives the same
-    answer on any two orderings of a leaf's rules, provided one candidate has
-    the strictly largest priority `crank` for the request (no tie at the top).
-    Ties at the top are exactly the order-dependent findings F2 / F3 /
-    full-prefix-vs-equals (see the counterexamples) and the documented
-    "two REGEX rules are unordered" case. -/
-theorem C04_order_independent_partial (o : Oracle) (path method : Bytes) (l l' : List Rule3)
-    (hperm : l.Perm l') (l₁ l₂ : List Rule3) (r : Rule3) (hl : l = l₁ ++ r :: l₂)
-    (hr : 0 < crank o path method r)
-    (hmax : ∀ c ∈ l₁ ++ l₂, crank o path method c < crank o path method r) :
+/-- C04 (order independence, tree leaf): two orderings `l`, `l'` of the same
+    rules give the same answer for a request, provided the rules have pairwise
+    distinct `(path, method)` keys (which `add_tree_rule` guarantees) and **at
+    most one REGEX rule attains the maximal rank** for that request — the one
+    case the documentation leaves unordered. -/
+theorem C04_order_independent (o : Oracle) (path method : Bytes) (l l' : List Rule3)
+    (hperm : l.Perm l')
+    (hkeys : l.Pairwise (fun a b => ¬ (a.1 = b.1 ∧ a.2.1 = b.2.1)))
+    (hregex : ∀ a ∈ l, ∀ b ∈ l, ∀ k, ruleRank o path method a = some k → ruleRank o path method b = some k →
+        (∀ c ∈ l, ∀ kc, ruleRank o path method c = some kc → rankGt kc k = false) →
+        (∃ s s', a.1 = .regex s ∧ b.1 = .regex s') → a = b) :
     selectLeaf o l path method = selectLeaf o l' path method := by
-  subst hl
-  have hmem : r ∈ l' := (hperm.mem_iff).mp (by simp)
-  obtain ⟨l₁', l₂', rfl⟩ := List.append_of_mem hmem
-  have h1 : (r :: (l₁ ++ l₂)).Perm (r :: (l₁' ++ l₂')) :=
-    (List.perm_middle.symm.trans hperm).trans List.perm_middle
-  have h2 : (l₁ ++ l₂).Perm (l₁' ++ l₂') := h1.cons_inv
-  have hmax' : ∀ c ∈ l₁' ++ l₂', crank o path method c < crank o path method r :=
-    fun c hc => hmax c ((h2.mem_iff).mpr hc)
-  rw [select_unique_max o path method l₁ l₂ r hr (fun c hc => hmax c (by simp [hc])) (fun c hc => hmax c (by simp [hc])),
-      select_unique_max o path method l₁' l₂' r hr (fun c hc => hmax' c (by simp [hc])) (fun c hc => hmax' c (by simp [hc]))]
+  rcases select_good o path method l with ⟨hn, hall⟩ | ⟨r, hr, k, hs, hk, hmax⟩
+  · rcases select_good o path method l' with ⟨hn', _⟩ | ⟨r', hr', k', _, hk', _⟩
+    · rw [hn, hn']
+    · rw [hall r' (hperm.mem_iff.mpr hr')] at hk'; cases hk'
+  · rcases select_good o path method l' with ⟨_, hall'⟩ | ⟨r', hr', k', hs', hk', hmax'⟩
+    · rw [hall' r (hperm.mem_iff.mp hr)] at hk; cases hk
+    · have hr'l : r' ∈ l := hperm.mem_iff.mpr hr'
+      have e : k' = k := rank_eq_of_not_gt (hmax r' hr'l k' hk') (hmax' r (hperm.mem_iff.mp hr) k hk)
+      subst e
+      have : r = r' := by
+        rcases same_rank_same_key o path method r r' k' hk hk' with hre | ⟨h1, h2⟩
+        · exact hregex r hr r' hr'l k' hk hk' hmax hre
+        · exact mem_same_key hkeys r hr r' hr'l h1 h2
+      rw [hs, hs', this]
 
 /-- the same, for the whole tree lookup of two routers whose selected leaves
     hold the same rules in different orders -/
-theorem C04_order_independent_tree_partial (o : Oracle) (t t' : Node (List Rule3)) (host path method : Bytes)
+theorem C04_order_independent_tree (o : Oracle) (t t' : Node (List Rule3)) (host path method : Bytes)
     (k k' : Bytes) (l l' : List Rule3)
     (ht : domainLookup o.seg t host true = some (k, l)) (ht' : domainLookup o.seg t' host true = some (k', l'))
-    (hperm : l.Perm l') (l₁ l₂ : List Rule3) (r : Rule3) (hl : l = l₁ ++ r :: l₂)
-    (hr : 0 < crank o path method r)
-    (hmax : ∀ c ∈ l₁ ++ l₂, crank o path method c < crank o path method r) :
+    (hperm : l.Perm l')
+    (hkeys : l.Pairwise (fun a b => ¬ (a.1 = b.1 ∧ a.2.1 = b.2.1)))
+    (hregex : ∀ a ∈ l, ∀ b ∈ l, ∀ k, ruleRank o path method a = some k → ruleRank o path method b = some k →
+        (∀ c ∈ l, ∀ kc, ruleRank o path method c = some kc → rankGt kc k = false) →
+        (∃ s s', a.1 = .regex s ∧ b.1 = .regex s') → a = b) :
     lookupTree o t host path method = lookupTree o t' host path method := by
   simp only [lookupTree, ht, ht']
-  exact C04_order_independent_partial o path method l l' hperm l₁ l₂ r hl hr hmax
+  exact C04_order_independent o path method l l' hperm hkeys hregex
+
+/-! ### add / remove of a tree frontend, seen through `get` -/
 
 /-! ### removal -/
 
-/-- C04 (removed never routes, tree part): after `remove_tree_rule` of a
-    frontend whose path rule is PREFIX or REGEX (`PathRule::eq` is reflexive on
-    it) on a regex-free trie, the leaf of that host holds no rule with the
-    removed `(path, method)` key any more, and every other leaf is untouched.
-    For EQUALS paths the hypothesis fails and so does the conclusion (F1). -/
-theorem C04_removed_never_routes_partial (o : Oracle) (t : Node (List Rule3)) (hwf : WF t)
+/-- C04 (removed never routes, tree part): after `remove_tree_rule` of **any**
+    frontend (PREFIX, REGEX or EQUALS path) on a regex-free trie, the leaf of
+    that host holds no rule with the removed `(path, method)` key, and every
+    other leaf is untouched. -/
+theorem C04_removed_never_routes (o : Oracle) (t : Node (List Rule3)) (hwf : WF t)
     (host : Bytes) (ds : List Bytes) (l : Bytes) (hsplit : splitKey host = some (keySteps ds l))
-    (p : PathRule) (m : MethodRule) (hp : p.eqImpl p = true) :
+    (p : PathRule) (m : MethodRule) :
     WF (removeTree o t host p m).1 ∧
     (∀ key rules, get (removeTree o t host p m).1 (keySteps ds l) = some (key, rules) →
         ∀ x ∈ rules, ¬ (x.1 = p ∧ x.2.1 = m)) ∧
     (∀ ds' l', (ds', l') ≠ (ds, l) →
         get (removeTree o t host p m).1 (keySteps ds' l') = get t (keySteps ds' l')) := by
-  simp only [removeTree, domainLookupMut, domainModifyMut, remove, hsplit, lookupMut_eq_get o.seg ds l t hwf]
-  cases hg : get t (keySteps ds l) with
-  | none =>
-    refine ⟨hwf, ?_, fun _ _ _ => rfl⟩
-    intro key rules h; rw [hg] at h; cases h
+  obtain ⟨h1, h2, h3⟩ := removeTree_spec o t hwf host ds l hsplit p m
+  refine ⟨h1, ?_, h3⟩
+  intro key rules hg x hx hxe
+  rw [h2] at hg
+  cases hq : get t (keySteps ds l) with
+  | none => rw [hq] at hg; cases hg
   | some kv =>
-    obtain ⟨key, paths⟩ := kv
-    have sp := modifyMut_spec o.seg (fun l => l.filter fun x => !sameKey3 p m x) ds l t hwf
-    simp only []
-    have hkeep : ∀ x ∈ paths.filter (fun x => !sameKey3 p m x), ¬ (x.1 = p ∧ x.2.1 = m) := by
-      intro x hx hxe
-      simp only [List.mem_filter, Bool.not_eq_eq_eq_not, Bool.not_true] at hx
-      obtain ⟨h1, h2⟩ := hxe
-      have : sameKey3 p m x = true := by simp [sameKey3, h1, h2, hp]
+    rw [hq] at hg
+    simp only [] at hg
+    split at hg
+    · cases hg
+    · simp only [Option.some.injEq, Prod.mk.injEq] at hg
+      obtain ⟨_, rfl⟩ := hg
+      simp only [keepRules, List.mem_filter, Bool.not_eq_eq_eq_not, Bool.not_true] at hx
+      have := (sameKey3_iff p m x).mpr hxe
       rw [this] at hx; exact absurd hx.2 (by simp)
-    split
-    · have sr := removeRec_spec ds l _ sp.wf
-      refine ⟨sr.wf, ?_, ?_⟩
-      · intro key' rules h; rw [sr.self] at h; cases h
-      · intro ds' l' hne; rw [sr.other ds' l' hne, sp.other ds' l' hne]
-    · refine ⟨sp.wf, ?_, ?_⟩
-      · intro key' rules h
-        rw [sp.self, hg] at h
-        simp only [Option.map_some, Option.some.injEq, Prod.mk.injEq] at h
-        obtain ⟨_, rfl⟩ := h
-        exact hkeep
-      · intro ds' l' hne; exact sp.other ds' l' hne
 
 /-! ### irrelevant change -/
 
-/-- C04 (irrelevant change, tree part): adding a tree frontend for host key
+/-- C04 (irrelevant change, tree part, add): adding a tree frontend for host key
     `(ds, l)` to a regex-free trie changes no leaf but that host's, so every
     request whose exact key and wildcard key both differ from `(ds, l)` — i.e.
     whose host the pattern does not match — keeps its tree lookup. -/
-theorem C04_irrelevant_change_add_partial (o : Oracle) (t t' : Node (List Rule3)) (hwf : WF t)
+theorem C04_irrelevant_change_add (o : Oracle) (t t' : Node (List Rule3)) (hwf : WF t)
     (host : Bytes) (ds : List Bytes) (l : Bytes) (hsplit : splitKey host = some (keySteps ds l))
     (p : PathRule) (m : MethodRule) (r : Route) (b : Bool) (hadd : addTree o t host p m r = some (t', b))
     (qhost : Bytes) (qds : List Bytes) (ql : Bytes) (hq : splitHost qhost = qSegs qds ql)
     (hne1 : (qds, ql) ≠ (ds, l)) (hne2 : (qds, [STAR]) ≠ (ds, l)) (path method : Bytes) :
     lookupTree o t' qhost path method = lookupTree o t qhost path method := by
-  have key : WF t' ∧ ∀ ds' l', (ds', l') ≠ (ds, l) → get t' (keySteps ds' l') = get t (keySteps ds' l') := by
-    simp only [addTree, domainLookupMut, domainModifyMut, hsplit, lookupMut_eq_get o.seg ds l t hwf] at hadd
-    cases hg : get t (keySteps ds l) with
+  obtain ⟨hwf', _, hother⟩ := addTree_spec o t t' hwf host ds l hsplit p m r b hadd
+  exact lookupTree_congr o t t' hwf hwf' qhost qds ql hq (hother qds ql hne1) (hother qds [STAR] hne2) path method
+
+/-- C04 (irrelevant change, tree part, remove): the same for `remove_tree_rule`. -/
+theorem C04_irrelevant_change_remove (o : Oracle) (t : Node (List Rule3)) (hwf : WF t)
+    (host : Bytes) (ds : List Bytes) (l : Bytes) (hsplit : splitKey host = some (keySteps ds l))
+    (p : PathRule) (m : MethodRule)
+    (qhost : Bytes) (qds : List Bytes) (ql : Bytes) (hq : splitHost qhost = qSegs qds ql)
+    (hne1 : (qds, ql) ≠ (ds, l)) (hne2 : (qds, [STAR]) ≠ (ds, l)) (path method : Bytes) :
+    lookupTree o (removeTree o t host p m).1 qhost path method = lookupTree o t qhost path method := by
+  obtain ⟨hwf', _, hother⟩ := removeTree_spec o t hwf host ds l hsplit p m
+  exact lookupTree_congr o t _ hwf hwf' qhost qds ql hq (hother qds ql hne1) (hother qds [STAR] hne2) path method
+
+/-! ### pre / post lists -/
+
+/-- C04 (irrelevant change, pre/post, add): a pre/post rule that does not match
+    the request does not change the list's answer when added. -/
+theorem C04_irrelevant_change_prepost_add (o : Oracle) (l : List Rule4) (d : DomainRule) (p : PathRule)
+    (m : MethodRule) (r : Route) (host path method : Bytes)
+    (hno : rule4Matches o host path method (d, p, m, r) = false) :
+    scanList o (addList l d p m r).1 host path method = scanList o l host path method := by
+  simp only [addList]
+  split
+  · rfl
+  · simp only [scanList_eq, List.find?_append]
+    cases h : List.find? (rule4Matches o host path method) l <;> simp [hno]
+
+/-- C04 (irrelevant change, pre/post, remove; also: removal keeps the order of
+    the survivors): removing the rule of key `(d, p, m)` does not change the
+    list's answer for a request that this rule does not match. -/
+theorem C04_irrelevant_change_prepost_remove (o : Oracle) (l : List Rule4) (d : DomainRule) (p : PathRule)
+    (m : MethodRule) (host path method : Bytes)
+    (hno : ∀ x ∈ l, sameKey4 d p m x = true → rule4Matches o host path method x = false) :
+    scanList o (removeList l d p m).1 host path method = scanList o l host path method := by
+  simp only [removeList]
+  split
+  · simp only [scanList_eq, find?_removeFirst_nomatch _ _ l hno]
+  · rfl
+
+/-- C04 (removed never routes, pre/post): in a list with pairwise distinct keys
+    (which `add_pre_rule`/`add_post_rule` guarantee), after `remove_*_rule` no
+    rule with the removed key remains. -/
+theorem C04_removed_never_routes_prepost (l : List Rule4) (d : DomainRule) (p : PathRule) (m : MethodRule)
+    (h : PPKeys l) : ∀ x ∈ (removeList l d p m).1, sameKey4 d p m x = false := by
+  simp only [removeList]
+  split
+  · exact removeFirst_nokey d p m l h
+  · next hany =>
+    intro x hx
+    cases hs : sameKey4 d p m x with
+    | false => rfl
+    | true => exact absurd (List.any_eq_true.mpr ⟨x, hx, hs⟩) hany
+
+/-! ### history-wide: the tree is a function of the configured set -/
+
+/-- C04 (history-wide abstraction): after **every** history of add/remove
+    operations (pre, post and regex-free tree frontends; failing operations
+    included) the host trie is well formed, has no empty leaf, and the leaf of
+    each host holds exactly the Spec's configured tree frontends of that host,
+    in configuration order; keys of no configured host have no leaf; the
+    pre/post lists have pairwise distinct keys. -/
+theorem C04_tree_is_configured_set (o : Oracle) (ops : List Op) (hp : ProperHistory ops) :
+    Inv (treeHosts ops) (run o ops) (Spec.run ops) :=
+  inv_run o (treeHosts ops) hp.inj ops _ _ (inv_init _) hp.proper (fun op hop h0 h1 => mem_treeHosts hop h0 h1)
+
+/-- every reachable tree is well formed, so the single-step theorems
+    (`C04_removed_never_routes`, `C04_irrelevant_change_*`) apply after any history -/
+theorem C04_reachable_wf (o : Oracle) (ops : List Op) (hp : ProperHistory ops) : WF (run o ops).tree :=
+  (C04_tree_is_configured_set o ops hp).wf
+
+/-- C04 (order independence, history-wide): two histories (adds, removes,
+    failing operations, any interleaving) that configure, for every host, the
+    same tree frontends up to order give the same tree lookup for every
+    request, provided at most one REGEX rule of a host attains the maximal
+    rank for that request. -/
+theorem C04_order_independent_history (o : Oracle) (ops₁ ops₂ : List Op) (hp : ProperHistory (ops₁ ++ ops₂))
+    (hsame : ∀ H, (specLeaf (Spec.run ops₁) H).Perm (specLeaf (Spec.run ops₂) H))
+    (qhost : Bytes) (qds : List Bytes) (ql : Bytes) (hq : splitHost qhost = qSegs qds ql) (path method : Bytes)
+    (hregex : ∀ H, AtMostOneRegexAtMax o path method (specLeaf (Spec.run ops₁) H)) :
+    lookupTree o (run o ops₁).tree qhost path method = lookupTree o (run o ops₂).tree qhost path method := by
+  have hHs : treeHosts (ops₁ ++ ops₂) = treeHosts ops₁ ++ treeHosts ops₂ := by simp [treeHosts]
+  have I₁ : Inv (treeHosts (ops₁ ++ ops₂)) (run o ops₁) (Spec.run ops₁) :=
+    inv_run o _ hp.inj ops₁ _ _ (inv_init _) (fun op h => hp.proper op (by simp [h]))
+      (fun op hop h0 h1 => by rw [hHs]; exact List.mem_append_left _ (mem_treeHosts hop h0 h1))
+  have I₂ : Inv (treeHosts (ops₁ ++ ops₂)) (run o ops₂) (Spec.run ops₂) :=
+    inv_run o _ hp.inj ops₂ _ _ (inv_init _) (fun op h => hp.proper op (by simp [h]))
+      (fun op hop h0 h1 => by rw [hHs]; exact List.mem_append_right _ (mem_treeHosts hop h0 h1))
+  have hS₁ := spec_keys ops₁ [] List.Pairwise.nil
+  -- per key: the two leaves are permutations, with distinct keys and the regex condition
+  have hleaf : ∀ ds l, (leafRules (run o ops₁).tree ds l).Perm (leafRules (run o ops₂).tree ds l) ∧
+      (leafRules (run o ops₁).tree ds l).Pairwise (fun a b => ¬ (a.1 = b.1 ∧ a.2.1 = b.2.1)) ∧
+      AtMostOneRegexAtMax o path method (leafRules (run o ops₁).tree ds l) := by
+    intro ds l
+    by_cases hex : ∃ H ∈ treeHosts (ops₁ ++ ops₂), splitKey H = some (keySteps ds l)
+    · obtain ⟨H, hH, hsp⟩ := hex
+      rw [I₁.leaf H hH ds l hsp, I₂.leaf H hH ds l hsp]
+      exact ⟨hsame H, specLeaf_keys _ hS₁ H, hregex H⟩
+    · have hall : ∀ H ∈ treeHosts (ops₁ ++ ops₂), splitKey H ≠ some (keySteps ds l) :=
+        fun H hH e => hex ⟨H, hH, e⟩
+      have e1 := (get_none_iff_leafRules I₁ ds l).mp (I₁.foreign ds l hall)
+      have e2 := (get_none_iff_leafRules I₂ ds l).mp (I₂.foreign ds l hall)
+      rw [e1, e2]
+      exact ⟨List.Perm.refl _, List.Pairwise.nil, by intro a ha; cases ha⟩
+  -- the selection on one key agrees
+  have hsel : ∀ ds l,
+      (match get (run o ops₁).tree (keySteps ds l) with
+        | some kv => some (selectLeaf o kv.2 path method) | none => none) =
+      (match get (run o ops₂).tree (keySteps ds l) with
+        | some kv => some (selectLeaf o kv.2 path method) | none => none) := by
+    intro ds l
+    obtain ⟨hperm, hkeys, hre⟩ := hleaf ds l
+    cases hg1 : get (run o ops₁).tree (keySteps ds l) with
     | none =>
-      rw [hg] at hadd
-      simp only [] at hadd
-      have sp := insertRec_spec host [(p, m, r)] ds l t hwf
-      by_cases hk : (host = [] || host = [DOT]) = true
-      · simp [Trie.insert, hk] at hadd
-      · simp only [Trie.insert, hk, Bool.false_eq_true, ↓reduceIte, hsplit] at hadd
-        split at hadd
-        · cases hadd
-        · simp only [Option.some.injEq, Prod.mk.injEq] at hadd
-          obtain ⟨rfl, _⟩ := hadd
-          exact ⟨sp.wf, sp.other⟩
-    | some kv =>
-      rw [hg] at hadd
-      simp only [] at hadd
-      split at hadd
-      · have sp := modifyMut_spec o.seg (fun l => l ++ [(p, m, r)]) ds l t hwf
-        simp only [Option.some.injEq, Prod.mk.injEq] at hadd
-        obtain ⟨rfl, _⟩ := hadd
-        exact ⟨sp.wf, sp.other⟩
-      · simp only [Option.some.injEq, Prod.mk.injEq] at hadd
-        obtain ⟨rfl, _⟩ := hadd
-        exact ⟨hwf, fun _ _ _ => rfl⟩
-  obtain ⟨hwf', hother⟩ := key
-  simp only [lookupTree, domainLookup, hq, lookup_eq o.seg qds ql t' hwf', lookup_eq o.seg qds ql t hwf,
-    hother qds ql hne1, hother qds [STAR] hne2]
+      have := (get_none_iff_leafRules I₁ ds l).mp hg1
+      rw [this] at hperm
+      have h2 := (get_none_iff_leafRules I₂ ds l).mpr (List.Perm.nil_eq hperm).symm
+      rw [h2]
+    | some kv1 =>
+      cases hg2 : get (run o ops₂).tree (keySteps ds l) with
+      | none =>
+        have := (get_none_iff_leafRules I₂ ds l).mp hg2
+        rw [this] at hperm
+        have h1 := (get_none_iff_leafRules I₁ ds l).mpr (List.Perm.eq_nil hperm)
+        rw [h1] at hg1; cases hg1
+      | some kv2 =>
+        simp only [leafRules, hg1, hg2] at hperm hkeys hre
+        simp only [Option.some.injEq]
+        exact C04_order_independent o path method kv1.2 kv2.2 hperm hkeys hre
+  simp only [lookupTree, domainLookup, hq, lookup_eq o.seg qds ql _ I₁.wf, lookup_eq o.seg qds ql _ I₂.wf]
+  have a := hsel qds ql
+  have b := hsel qds [STAR]
+  cases hg1 : get (run o ops₁).tree (keySteps qds ql) <;> cases hg2 : get (run o ops₂).tree (keySteps qds ql) <;>
+    simp only [hg1, hg2] at a <;> try (cases a; done)
+  · simp only [Option.orElse]
+    cases hw1 : get (run o ops₁).tree (keySteps qds [STAR]) <;> cases hw2 : get (run o ops₂).tree (keySteps qds [STAR]) <;>
+      simp only [hw1, hw2] at b <;> try (cases b; done)
+    · rfl
+    · simpa using b
+  · simpa using a
 
-
-/-! ### precedence vs the Spec, on one leaf -/
-
-/-- the documented rank of a leaf rule for a request (`Spec.rank` on a rule) -/
-def ruleRank (o : Oracle) (path method : Bytes) (r : Rule3) : Option (Nat × Nat × Nat) :=
-  Spec.rank o ⟨2, [], r.1, r.2.1, r.2.2⟩ path method
-
-/-- C04 (precedence, tree leaf): when one candidate has the strictly largest
-    loop priority and no other candidate outranks it in the documented order
-    (EQUALS > REGEX > PREFIX, longer prefix, method-specific), the loop returns
-    that candidate, which the documented order also puts (weakly) first. The
-    second hypothesis is what the method-specific-REGEX-vs-EQUALS deviation
-    violates (see the counterexample). -/
-theorem C04_lookup_in_spec_partial (o : Oracle) (path method : Bytes) (l₁ l₂ : List Rule3) (r : Rule3)
-    (hr : 0 < crank o path method r)
-    (hmax : ∀ c ∈ l₁ ++ l₂, crank o path method c < crank o path method r)
-    (hdoc : ∀ c ∈ l₁ ++ l₂, ∀ rc rr, ruleRank o path method c = some rc → ruleRank o path method r = some rr →
-        Spec.rankLt rr rc = false) :
-    selectLeaf o (l₁ ++ r :: l₂) path method = some r.2.2 ∧
-    ∀ c ∈ l₁ ++ r :: l₂, ∀ rc rr, ruleRank o path method c = some rc → ruleRank o path method r = some rr →
-        Spec.rankLt rr rc = false := by
-  refine ⟨select_unique_max o path method l₁ l₂ r hr (fun c hc => hmax c (by simp [hc])) (fun c hc => hmax c (by simp [hc])), ?_⟩
-  intro c hc rc rr h1 h2
-  simp only [List.mem_append, List.mem_cons] at hc
-  rcases hc with hc | rfl | hc
-  · exact hdoc c (by simp [hc]) rc rr h1 h2
-  · rw [h1] at h2; cases h2
-    simp [Spec.rankLt, Nat.lt_irrefl]
-  · exact hdoc c (by simp [hc]) rc rr h1 h2
-
-/-! ### counterexamples: the excluded points really fail in the model
-    (each was replayed on the real `Router`, see harness corpus) -/
+/-! ### concrete data for regressions, counterexamples and non-vacuity -/
 
 def hAio : Bytes := [97, 46, 105, 111]            -- "a.io"
 def hBaio : Bytes := [98, 46, 97, 46, 105, 111]   -- "b.a.io"
 def hBcaio : Bytes := [98, 99, 46, 97, 46, 105, 111] -- "bc.a.io"
 def hStarAio : Bytes := [42, 46, 97, 46, 105, 111] -- "*.a.io"
 def hReAio : Bytes := [47, 98, 46, 42, 47, 46, 97, 46, 105, 111] -- "/b.*/.a.io"
+def hVXio : Bytes := [118, 46, 47, 120, 46, 42, 47, 46, 105, 111] -- "v./x.*/.io"
+def hWxyio : Bytes := [119, 46, 120, 121, 46, 105, 111] -- "w.xy.io"
+def hVxyio : Bytes := [118, 46, 120, 121, 46, 105, 111] -- "v.xy.io"
 def pSlash : Bytes := [47]
 def pA : Bytes := [47, 97]
 def pAb : Bytes := [47, 97, 98]
@@ -259,46 +285,56 @@ def oNone : Oracle := ⟨fun _ _ => false, fun _ _ => false, fun _ _ => false⟩
 def fr (host : Bytes) (kind : Nat) (path : Bytes) (method : Option Bytes) (c : Nat) : Front :=
   { pos := 2, host, kind, path, method, cluster := some [c] }
 
-/-- F1: an EQUALS tree frontend is still routed after its removal. -/
-theorem C04_removed_never_routes_counterexample :
-    lookupRoute oAll (run oAll [.add (fr hAio 2 pA none 1), .remove (fr hAio 2 pA none 1)]) hAio pA GET
-      = some (.cluster [1]) ∧
+/-! ### regressions: the witnesses of the six repaired findings now behave
+    (they stay in the harness corpus and are replayed on the real `Router`) -/
+
+/-- F1 (fixed by b632e1a): a removed EQUALS tree frontend no longer routes. -/
+theorem C04_regression_equals_rule_removed :
+    lookupRoute oAll (run oAll [.add (fr hAio 2 pA none 1), .remove (fr hAio 2 pA none 1)]) hAio pA GET = none ∧
     Spec.route oAll (Spec.run [.add (fr hAio 2 pA none 1), .remove (fr hAio 2 pA none 1)]) hAio pA GET = [] := by
   decide
 
-/-- F2: REGEX vs EQUALS on the same host (both method-agnostic): the last added wins
-    (with a specific method on both, the first added wins). -/
-theorem C04_order_independent_counterexample_regex_vs_equals :
+/-- F1b (fixed by b632e1a): a second add of the same EQUALS key is refused. -/
+theorem C04_regression_equals_rule_deduplicated :
+    (addFront oAll (run oAll [.add (fr hAio 2 pA none 1)]) (fr hAio 2 pA none 2)).2 = AddOut.errAdd ∧
+    lookupRoute oAll (run oAll [.add (fr hAio 2 pA none 1), .add (fr hAio 2 pA none 2)]) hAio pA GET
+      = some (.cluster [1]) := by
+  decide
+
+/-- F2 (fixed by 3989b45): EQUALS beats REGEX in both insertion orders, with and without a method. -/
+theorem C04_regression_regex_vs_equals :
     lookupRoute oAll (run oAll [.add (fr hAio 1 pA none 1), .add (fr hAio 2 pAb none 2)]) hAio pAb GET = some (.cluster [2]) ∧
-    lookupRoute oAll (run oAll [.add (fr hAio 2 pAb none 2), .add (fr hAio 1 pA none 1)]) hAio pAb GET = some (.cluster [1]) ∧
-    lookupRoute oAll (run oAll [.add (fr hAio 1 pA (some GET) 1), .add (fr hAio 2 pAb (some GET) 2)]) hAio pAb GET = some (.cluster [1]) ∧
+    lookupRoute oAll (run oAll [.add (fr hAio 2 pAb none 2), .add (fr hAio 1 pA none 1)]) hAio pAb GET = some (.cluster [2]) ∧
+    lookupRoute oAll (run oAll [.add (fr hAio 1 pA (some GET) 1), .add (fr hAio 2 pAb (some GET) 2)]) hAio pAb GET = some (.cluster [2]) ∧
     lookupRoute oAll (run oAll [.add (fr hAio 2 pAb (some GET) 2), .add (fr hAio 1 pA (some GET) 1)]) hAio pAb GET = some (.cluster [2]) := by
   decide
 
-/-- F3: PREFIX+GET vs PREFIX+any on the same prefix: the last added wins. -/
-theorem C04_order_independent_counterexample_method_specificity :
-    lookupRoute oAll (run oAll [.add (fr hAio 0 pA (some GET) 1), .add (fr hAio 0 pA none 2)]) hAio pAb GET = some (.cluster [2]) ∧
+/-- F3 (fixed by 3989b45): PREFIX+GET beats PREFIX+any on the same prefix in both orders. -/
+theorem C04_regression_method_specificity :
+    lookupRoute oAll (run oAll [.add (fr hAio 0 pA (some GET) 1), .add (fr hAio 0 pA none 2)]) hAio pAb GET = some (.cluster [1]) ∧
     lookupRoute oAll (run oAll [.add (fr hAio 0 pA none 2), .add (fr hAio 0 pA (some GET) 1)]) hAio pAb GET = some (.cluster [1]) := by
   decide
 
-/-- EQUALS (any method) vs a PREFIX equal to the whole path: the last added wins. -/
-theorem C04_order_independent_counterexample_full_prefix :
-    lookupRoute oAll (run oAll [.add (fr hAio 2 pAb none 1), .add (fr hAio 0 pAb none 2)]) hAio pAb GET = some (.cluster [2]) ∧
+/-- F26 (fixed by 3989b45): EQUALS beats a PREFIX equal to the whole path in both orders. -/
+theorem C04_regression_full_prefix_vs_equals :
+    lookupRoute oAll (run oAll [.add (fr hAio 2 pAb none 1), .add (fr hAio 0 pAb none 2)]) hAio pAb GET = some (.cluster [1]) ∧
     lookupRoute oAll (run oAll [.add (fr hAio 0 pAb none 2), .add (fr hAio 2 pAb none 1)]) hAio pAb GET = some (.cluster [1]) := by
   decide
 
-/-- a method-specific REGEX beats a method-agnostic EQUALS (in both orders),
-    against the documented EQUALS > REGEX. -/
-theorem C04_lookup_in_spec_counterexample :
-    lookupRoute oAll (run oAll [.add (fr hAio 1 pA (some GET) 1), .add (fr hAio 2 pAb none 2)]) hAio pAb GET = some (.cluster [1]) ∧
-    lookupRoute oAll (run oAll [.add (fr hAio 2 pAb none 2), .add (fr hAio 1 pA (some GET) 1)]) hAio pAb GET = some (.cluster [1]) ∧
+/-- F27 (fixed by 3989b45): a method-agnostic EQUALS beats a method-specific REGEX, as the Spec says. -/
+theorem C04_regression_method_specific_regex_vs_equals :
+    lookupRoute oAll (run oAll [.add (fr hAio 1 pA (some GET) 1), .add (fr hAio 2 pAb none 2)]) hAio pAb GET = some (.cluster [2]) ∧
+    lookupRoute oAll (run oAll [.add (fr hAio 2 pAb none 2), .add (fr hAio 1 pA (some GET) 1)]) hAio pAb GET = some (.cluster [2]) ∧
     Spec.route oAll (Spec.run [.add (fr hAio 1 pA (some GET) 1), .add (fr hAio 2 pAb none 2)]) hAio pAb GET = [.cluster [2]] := by
   decide
 
-/-- a literal host added after a leftmost-regex host that matches its label is
-    stored in the regex host's leaf (`lookup_mut` falls through to the regex
-    entries): the frontend for `bc.a.io` then serves `b.a.io`. This is why the
-    trie/router theorems are stated for regex-free tries. -/
+/-! ### counterexamples: the three open findings (regex-segment hosts, host-first
+    selection) — why the trie/router theorems are stated for regex-free tries -/
+
+/-- F28 `regex-host-leaf-shared-with-literal-host`: a literal host added after
+    a leftmost-regex host that matches its label is stored in the regex host's
+    leaf (`lookup_mut` falls through to the regex entries): the frontend for
+    `bc.a.io` then serves `b.a.io`. -/
 theorem C04_trie_refines_map_counterexample :
     lookupRoute oAll (run oAll [.add (fr hReAio 0 pSlash none 1), .add (fr hBcaio 0 pA none 2)]) hBaio pA GET
       = some (.cluster [2]) ∧
@@ -306,10 +342,21 @@ theorem C04_trie_refines_map_counterexample :
       = [.cluster [1]] := by
   decide
 
-/-- the literal reading of "a frontend that does not match a request never
-    changes its route" fails for host-first selection: `b.a.io` + `/z` does not
-    match `GET b.a.io/a`, yet adding it takes the request away from `*.a.io`
-    (the Spec, which selects the host first, says the same). -/
+/-- F29 `regex-segment-no-backtrack`: with `v./x.*/.io` configured, adding the
+    unrelated `w.xy.io` leaves `v.xy.io` without a route (the literal child
+    `.xy` is taken, the regex sibling is never tried). -/
+theorem C04_irrelevant_change_counterexample_regex_segment :
+    lookupRoute oAll (run oAll [.add (fr hVXio 0 pSlash none 1)]) hVxyio pSlash GET = some (.cluster [1]) ∧
+    lookupRoute oAll (run oAll [.add (fr hVXio 0 pSlash none 1), .add (fr hWxyio 0 pSlash none 2)]) hVxyio pSlash GET = none ∧
+    Spec.route oAll (Spec.run [.add (fr hVXio 0 pSlash none 1), .add (fr hWxyio 0 pSlash none 2)]) hVxyio pSlash GET
+      = [.cluster [1]] := by
+  decide
+
+/-- F30 `nonmatching-frontend-changes-host-group`: the literal reading of "a
+    frontend that does not match a request never changes its route" fails for
+    host-first selection: `b.a.io` + `/z` does not match `GET b.a.io/a`, yet
+    adding it takes the request away from `*.a.io` (the Spec, which selects
+    the host first, agrees with the code). -/
 theorem C04_irrelevant_change_counterexample :
     lookupRoute oAll (run oAll [.add (fr hStarAio 0 pSlash none 1)]) hBaio pA GET = some (.cluster [1]) ∧
     lookupRoute oAll (run oAll [.add (fr hStarAio 0 pSlash none 1), .add (fr hBaio 0 pZ none 2)]) hBaio pA GET = none ∧
@@ -322,21 +369,42 @@ theorem C04_irrelevant_change_counterexample :
 def demoOps : List Op :=
   [.add (fr hStarAio 0 pSlash none 1), .add (fr hBaio 0 pA none 2), .add (fr hBaio 0 pAb (some GET) 3),
    .add (fr hBaio 2 pZ none 4), .add (fr hBaio 1 pZ none 5)]
+-- the same set in another order, with a failing duplicate add and an add/remove detour
+def demoOps' : List Op :=
+  [.add (fr hBaio 1 pZ none 5), .add (fr hBaio 0 pAb (some GET) 3), .add (fr hBaio 2 pA none 9), .add (fr hStarAio 0 pSlash none 1),
+   .add (fr hBaio 0 pAb (some GET) 7), .remove (fr hBaio 2 pA none 9), .add (fr hBaio 2 pZ none 4), .add (fr hBaio 0 pA none 2)]
 
 example : lookupRoute oNone (run oNone demoOps) hBaio pAb GET = some (.cluster [3]) := by decide
 example : Spec.route oNone (Spec.run demoOps) hBaio pAb GET = [.cluster [3]] := by decide
 example : lookupRoute oNone (run oNone demoOps) hBcaio pA GET = some (.cluster [1]) := by decide
--- the hypotheses of the leaf theorems hold for the `b.a.io` leaf and `GET /ab`
-example : 0 < crank oAll pAb GET (.pfx pAb, some GET, .cluster [3]) := by decide
-example : ∀ c ∈ [((.pfx pA, none, .cluster [2]) : Rule3)] ++ [], crank oAll pAb GET c < crank oAll pAb GET (.pfx pAb, some GET, .cluster [3]) := by decide
--- `PathRule::eq` is reflexive on PREFIX and REGEX rules, not on EQUALS
-example : (PathRule.pfx pA).eqImpl (.pfx pA) = true ∧ (PathRule.regex pA).eqImpl (.regex pA) = true ∧ (PathRule.equals pA).eqImpl (.equals pA) = false := by decide
+example : lookupRoute oAll (run oAll demoOps) hBaio pZ GET = some (.cluster [4]) := by decide
+example : lookupRoute oAll (run oAll demoOps') hBaio pZ GET = some (.cluster [4]) := by decide
+
+theorem demo_proper : ProperHistory (demoOps ++ demoOps') := by
+  refine ⟨?_, by decide⟩
+  intro op hop _ _
+  have hb : ∀ op ∈ demoOps ++ demoOps', (frontOf op).host = hBaio ∨ (frontOf op).host = hStarAio := by decide
+  rcases hb op hop with e | e <;> rw [e]
+  · exact ⟨⟨[[105, 111], [97]], [98], by decide⟩, by decide⟩
+  · exact ⟨⟨[[105, 111], [97]], [STAR], by decide⟩, by decide⟩
+
+-- the hypotheses of the history-wide order-independence theorem hold for the two demo histories
+example : ∀ H ∈ [hBaio, hStarAio, hAio], (specLeaf (Spec.run demoOps) H).Perm (specLeaf (Spec.run demoOps') H) := by
+  decide
+example : lookupTree oAll (run oAll demoOps).tree hBaio pZ GET = lookupTree oAll (run oAll demoOps').tree hBaio pZ GET := by
+  decide
+-- `PathRule::eq` is now reflexive on all three kinds
+example : (PathRule.pfx pA).eqImpl (.pfx pA) = true ∧ (PathRule.regex pA).eqImpl (.regex pA) = true ∧ (PathRule.equals pA).eqImpl (.equals pA) = true := by decide
 -- the byte-level splitters produce proper keys / queries on real host names
 example : splitKey hBaio = some (keySteps [[105, 111], [97]] [98]) := by decide
 example : splitKey hStarAio = some (keySteps [[105, 111], [97]] [STAR]) := by decide
 example : splitHost hBaio = qSegs [[105, 111], [97]] [98] := by decide
--- the tree of the demo state is reached from the root by `add_tree_rule`s only and is regex-free
-example : (run oNone demoOps).tree.regexps = [] := by decide
+-- pre/post: removing the middle of three rules keeps the order of the survivors
+example :
+    let l : List Rule4 := [(.any, .pfx [], none, .cluster [1]), (.any, .pfx pA, none, .cluster [2]), (.any, .pfx pSlash, none, .cluster [3])]
+    scanList oNone (removeList l .any (.pfx pA) none).1 hAio pAb GET = some (.cluster [1]) ∧
+    scanList oNone (removeList (removeList l .any (.pfx pA) none).1 .any (.pfx []) none).1 hAio pAb GET = some (.cluster [3]) := by
+  decide
 -- trie refinement instance: exact over wildcard after insert / insert / remove
 example : Trie.lookup (fun _ _ => false) true
     ([TOp.ins ([[105, 111], [97]], [STAR]) hStarAio 1, .ins ([[105, 111], [97]], [98]) hBaio 2, .rem ([[105, 111], [97]], [98])].foldl tstep (Node.root : Node Nat))
